@@ -127,7 +127,8 @@ def getRead (j : Json) : Except String Read := do
   match j with
   | Json.arr [Json.str "next"] => pure .next
   | Json.arr [Json.str "take", k] => pure (.take (← getNat k))
-  | _ => throw "C01: read = [\"next\"] | [\"take\", k]"
+  | Json.arr [Json.str "peek", k] => pure (.peek (← getNat k))
+  | _ => throw "C01: read = [\"next\"] | [\"take\", k] | [\"peek\", k]"
 
 def getBadTable (j : Json) : Except String (List Term) :=
   match optField j "bad" with
